@@ -141,7 +141,8 @@ def su2_to_angle(np0:np.ndarray, zero_eps:float=1e-7):
         a*aH-b*bH, #x22
     ]
     alpha,beta,gamma = _so3_to_angle_hf0(*tmp0, zero_eps)
-    tmp1 = (np.exp(0.5j*(alpha+gamma)) * a).real < 0
+    # =cos(beta/2)+sin(beta/2)>=1 for the right branch of gamma, <=-1 for the other one (U00 alone vanishes at beta=pi)
+    tmp1 = (np.exp(0.5j*(alpha+gamma))*a - np.exp(0.5j*(alpha-gamma))*b).real < 0
     gamma = gamma + tmp1*(2*np.pi)
     if len(shape)==0:
         ret = alpha[0],beta[0],gamma[0]
